@@ -50,7 +50,7 @@ fn now_ms() -> u64 {
     std::time::SystemTime::now().duration_since(std::time::UNIX_EPOCH).map(|d| d.as_millis() as u64).unwrap_or(0)
 }
 
-fn begin_case(w: usize, buf: &[u8]) {
+pub fn begin_case(w: usize, buf: &[u8]) {
     HEARTBEAT[w].store(now_ms(), Ordering::Relaxed);
     if let Ok(mut c) = CURRENT.try_lock() {
         if let Some(e) = c.iter_mut().find(|e| e.0 == w) {
@@ -61,7 +61,7 @@ fn begin_case(w: usize, buf: &[u8]) {
         }
     }
 }
-fn end_worker(w: usize) {
+pub fn end_worker(w: usize) {
     HEARTBEAT[w].store(0, Ordering::Relaxed);
 }
 
@@ -282,7 +282,7 @@ fn record(st: &mut Stats, sigs: Sigs, buf: &[u8], t: &TrackerCtx, recent: &[Vec<
 }
 
 pub fn run_c01(ctx: &Ctx) -> ! {
-    start_watchdog(20_000);
+    // the watchdog is started by main() before the replay tier
     let nrandom = ctx.tier.pick(2_000_000u64, 150_000_000);
     let nstruct = ctx.tier.pick(1_500_000u64, 150_000_000);
     let npool = ctx.tier.pick(220usize, 900);
